@@ -40,7 +40,7 @@ def generate(tier, seed):
                 if dim > common.max_valid_dim(name):
                     continue
                 cases.append(("field", {"name": name, "dim": dim, "mean_u": float(rng.choice([0.3, 1.0, -2.0, 0.0])), "mode_no": int(rng.choice([64, 1000])),
-                                        "npts": int(rng.choice([1, dim, dim + 1, 7])),
+                                        "npts": int(rng.choice([1, dim, dim + 1, 7])), "len_unit": float(rng.choice([1.0, 1.0, 1e-4, 1e4])),
                                         "seed": int(rng.integers(1, 1 << 24)), "cseed": int(rng.integers(1 << 30)),
                                         "history": str(rng.choice(["none", "mean_u", "model", "mode_no"]))}))
     for dim in (2, 3):
@@ -53,6 +53,7 @@ def generate(tier, seed):
 def _model(c, rng):
     d = common.draw_model(rng, c["name"], c["dim"], "interior", aniso=False, nugget=False)
     d["nugget"] = 0.0
+    d["len_scale"] = float(d["len_scale"]) * float(c.get("len_unit", 1.0))  # the coordinate unit is the user's (mm ... km)
     if c["name"] == "JBessel" and "opt" in d:
         d["opt"]["nu"] = max(d["opt"]["nu"], c["dim"] / 2 - 1 + 0.3)
     return common.build_model(d), d
@@ -92,18 +93,19 @@ def check_field(ctx, c):
     with warnings.catch_warnings():
         warnings.simplefilter("ignore")
         if hist != "none":
-            srf(rng.uniform(-3, 3, size=(dim, 3)))  # use the live object first
+            srf(rng.uniform(-3, 3, size=(dim, 3)) * float(c.get("len_unit", 1.0)))  # use the live object first
         if hist == "mean_u":
             mean_u = float(rng.choice([0.5, -1.5, 3.0, 0.0]))
             srf.generator.mean_u = mean_u
         elif hist == "model":
             srf.model.var = round(float(rng.uniform(0.3, 3)), 3)
-            srf.model.len_scale = round(float(rng.uniform(0.5, 5)), 3)
+            srf.model.len_scale = round(float(rng.uniform(0.5, 5)), 3) * float(c.get("len_unit", 1.0))
         elif hist == "mode_no":
             srf.generator.mode_no = int(rng.choice([32, 128]))
     ctx.cell(f"field/{c['name']}/dim{dim}/history={hist}")
     npts = int(c.get("npts", 7))  # incl. a single point and exactly `dim` points (square position arrays)
-    x = rng.uniform(-6, 6, size=(dim, npts)) + 1e-3 * rng.random()
+    unit = float(c.get("len_unit", 1.0))
+    x = (rng.uniform(-6, 6, size=(dim, npts)) + 1e-3 * rng.random()) * unit
     with warnings.catch_warnings():
         warnings.simplefilter("ignore")
         u = np.asarray(srf(x), dtype=float)
@@ -121,7 +123,7 @@ def check_field(ctx, c):
     ctx.event("formula_comparisons", u.size)
     scale = max(1.0, common.maxabs(want))
     err = common.maxabs(u - want) / scale
-    tol = 1e-12 + 200 * 2.3e-16 * kmax * 7.0 * math.sqrt(k.shape[1])
+    tol = 1e-12 + 200 * 2.3e-16 * kmax * max(common.maxabs(x), 1e-300) * math.sqrt(k.shape[1])
     ctx.resolve("formula_rel", err)
     if not err <= tol:
         ctx.fail(dict(mech, what="field!=mean*e1+mean*sqrt(var/N)*sum p(k)(Z1 cos+Z2 sin)"),
@@ -135,7 +137,7 @@ def check_field(ctx, c):
     # keep the differences well resolved: step relative to the smallest wave length present
     lam = 2 * math.pi / max(kmax, 1e-12)
     h = min(1e-2 * lam, 1e-3 * float(srf.model.len_scale))
-    if kmax * 6.0 > 1e7:
+    if kmax * common.maxabs(x) > 1e7:
         ctx.event("divergence_skipped(runaway wave numbers)")
     else:
         def grad(hh):
